@@ -95,14 +95,22 @@ Ops == << [name |-> "read_card", pre |-> <<>>, dang |-> <<>>, n |-> 1, tid |-> "
 NoInter(o, e) == \/ Ops[o].name = "configure" /\ (e = 1 \/ (Ops[o].tid # "52523535" /\ e = 2))
                  \/ (Ops[o].name \in {"commit", "cancel"} /\ e = 2)
                  \/ (Ops[o].name = "configure" /\ e = (IF Ops[o].tid # "52523535" THEN 4 ELSE 3))
+\* exchanges whose reply set has a status information that may precede the final packet: reservation, the reversals, end of day
+StatusOk(o, e) == \/ (Ops[o].name \in {"begin", "commit", "cancel"} /\ ~NoInter(o, e))
+                  \/ (Ops[o].name = "configure" /\ (e = Ops[o].n \/ (Ops[o].dang # <<>> /\ e = Ops[o].n - 1)))
 Codes == IF Thorough THEN 0..255 ELSE {0, 1, 100, 108, 119, 131, 160, 181, 183, 184, 252, 255} \cup {c \in 0..255 : c % 16 = 5}
-C20Cases == SetSeq({<<o, e, code, i>> \in (1..Len(Ops)) \X (1..6) \X Codes \X (0..2) : e <= Ops[o].n /\ (i = 0 \/ (code \in {108, 160, 183, 252} /\ ~NoInter(o, e)))})
+\* i = 0..2 intermediate statuses in front of the abort; i = 3: a status information in front of it
+C20Cases == SetSeq({<<o, e, code, i>> \in (1..Len(Ops)) \X (1..6) \X Codes \X (0..3) :
+                      e <= Ops[o].n /\ (i = 0 \/ (i \in {1, 2} /\ code \in {108, 160, 183, 252} /\ ~NoInter(o, e)) \/ (i = 3 /\ StatusOk(o, e)))})
 C20Scenario(x) ==
   LET op == Ops[x[1]]
       setup == [k \in 1..Len(op.pre) |-> [op |-> op.pre[k], token |-> <<97>>, amount |-> <<>>]]
       okp == [o |-> "ok", status |-> [amount |-> <<1>>]]
       pl == [k \in 1..(Len(op.pre) + op.n) |->
-               IF k = Len(op.pre) + x[2] THEN [o |-> "abort", code |-> x[3], inter |-> x[4]] ELSE okp] IN
+               IF k = Len(op.pre) + x[2]
+               THEN (IF x[4] = 3 THEN [o |-> "abort", code |-> x[3], inter |-> 0, status_first |-> TRUE, status |-> [amount |-> <<1>>]]
+                     ELSE [o |-> "abort", code |-> x[3], inter |-> x[4]])
+               ELSE okp] IN
   [config |-> [BaseCfg EXCEPT !.terminal_id = op.tid], term |-> [next_receipt |-> 1, dangling |-> op.dang],
    calls |-> setup \o << [op |-> op.name, token |-> <<97>>, amount |-> <<1>>] >>,
    plan |-> [exchanges |-> pl]]
